@@ -397,14 +397,24 @@ func zzC09ClientPOST() {
 		switch a.media {
 		case "application/json":
 			vAssert(err == nil && handlers == 1 && len(env.sse) == 0, "C01.post.json-answer-handled-once")
+			// (C04) the caller may give up while the body is still in transit: the request — and with it the body — is
+			// bound to the call's context, so reading then fails; that is this call's business, not the connection's
+			gaveUp := a.bodyBad == 1 && vBool("callerGaveUpWhileTheBodyWasInTransit")
+			if gaveUp {
+				cancel()
+			}
 			vRunSpawned(0)
-			if a.bodyBad == 0 {
+			if gaveUp {
+				vAssert(vChanLen(c.incoming) == 0 && c.failure() == nil, "C04.post.abandoned-call-leaves-the-connection-usable")
+				vReach("json-abandoned")
+			} else if a.bodyBad == 0 {
 				vAssert(vChanLen(c.incoming) == 1 && c.failure() == nil, "C01.post.json-answer-delivered-exactly-once")
 				m := (<-c.incoming).(*jsonrpc.Response)
 				vAssert(m.ID == call.ID, "C01.post.answer-bears-the-calls-id")
 				vReach("json")
 			} else {
-				vAssert(vChanLen(c.incoming) == 0 && c.failure() != nil, "C01.post.unusable-answer-fails-the-connection")
+				// (a body that cannot be read under a context that has ended is attributed to the call, see above)
+				vAssert(vChanLen(c.incoming) == 0 && (c.failure() != nil || (a.bodyBad == 1 && ctx.Err() != nil)), "C01.post.unusable-answer-fails-the-connection")
 				vReach("json-bad")
 			}
 			vAssert(a.body.closes >= 1, "C05.post.body-closed")
